@@ -573,9 +573,9 @@ theorem doTask_linv (cfg : Cfg) {st : St α} (t : Task) (ts : List Task) (h : LI
 
 theorem doCall_linv (cfg : Cfg) {st : St α} (k : Nat) (c : Call α) (h : LInv st) (hag : st.agenda = []) :
     LInv (doCall cfg st k c) := by
-  have h2 : LInv { st with curCall := k, evs := st.evs ++ [EvR.call k st.clock] } :=
+  have h2 : LInv { st with curCall := k, evs := st.evs ++ [EvR.call k st.clock st.observers.length] } :=
     h.congr rfl rfl rfl rfl rfl rfl rfl (fun _ h => h)
-  have hnone : ∀ (ag : List Task), LInv { st with curCall := k, evs := st.evs ++ [EvR.call k st.clock], agenda := ag } :=
+  have hnone : ∀ (ag : List Task), LInv { st with curCall := k, evs := st.evs ++ [EvR.call k st.clock st.observers.length], agenda := ag } :=
     fun ag => h.congr rfl rfl rfl rfl rfl rfl rfl (fun i hi => by rw [hag] at hi; exact absurd hi (by simp))
   unfold doCall
   cases c with
